@@ -53,6 +53,10 @@ vars == <<kind, cfg, up, lists, status, known, hb, req, cnt, act, scn>>
 NoReq == [route |-> "", model |-> "", cands |-> {}, tried |-> {}, phase |-> "none", served |-> "none"]
 \* "proxy" and the translated Anthropic route take any kind; a provider prefix only its own
 Allowed(route, e) == route \in {"proxy", "anthropic"} \/ kind[e] = route
+\* kinds whose profile declares native support for the Anthropic Messages API (C14): a request on the Anthropic
+\* route reaches such a backend untranslated on /v1/messages, any other backend translated on the OpenAI chat path
+Native == {"ollama"}     \* (of the kinds the system model explores: ollama declares it, sglang does not)
+PathAt(route, e) == IF route = "anthropic" /\ kind[e] \in Native THEN "/v1/messages" ELSE "/v1/chat/completions"
 
 Balancers == {"round-robin", "priority", "least-connections"}
 Init == /\ kind \in [EP -> Kinds]
@@ -87,7 +91,12 @@ Health == /\ Idle /\ act' = "Health"
           /\ UNCHANGED <<kind, cfg, up, lists, req, cnt>>
 
 (* ---- a request ---- *)
-Cands(route, m) == {e \in EP : status[e] = "healthy" /\ Allowed(route, e) /\ m \in known[e]}
+\* On the Anthropic route a request is passed through when at least one candidate speaks the Messages API itself,
+\* and then ONLY such candidates are tried (olla does not fall back to translation when they all fail: C14's
+\* "chosen correctly and never mixed up"); without one, every candidate gets the translated request.
+Cands(route, m) == LET base == {e \in EP : status[e] = "healthy" /\ Allowed(route, e) /\ m \in known[e]}
+                       nat  == {e \in base : kind[e] \in Native}
+                   IN  IF route = "anthropic" /\ nat # {} THEN nat ELSE base
 Arrive(route, m) == /\ Idle /\ act' = "Arrive"
                     /\ req' = [route |-> route, model |-> m, cands |-> Cands(route, m), tried |-> {},
                                phase |-> "choosing", served |-> "none"]
